@@ -92,6 +92,18 @@ def run(ctx):
     ctx.assumptions += ["library calls are deterministic given the RNG state", "total >= since_reset (both counters are only incremented together, C01)"]
     n_live = 0
     for cname in CLASSES:
+        n_live += class_rules(ctx, cname)
+    ctx.floor("exposed reads examined", n_live, 60)
+    set_reference_rules(ctx)
+    adopt_rules(ctx)
+    cusum_reestimate(ctx)
+
+
+def class_rules(ctx, cname):
+    """LIVE / shift-invariance / IDX / AGREE obligations of one detector class; returns the number of exposed reads examined."""
+    prog = ctx.prog
+    n_live = 0
+    if True:
         ci = prog.cls(cname)
         tot, since = q.counters(prog, ci)
         life = lifetime(cname, prog, ci)
@@ -156,10 +168,7 @@ def run(ctx):
             # ---- IDX
             idx_rule(ctx, cname, (trd, trn), life, since)
         agree(ctx, cname)
-    ctx.floor("exposed reads examined", n_live, 60)
-    set_reference_rules(ctx)
-    adopt_rules(ctx)
-    cusum_reestimate(ctx)
+    return n_live
 
 
 def _implies_drift(conds, fin_ds):
